@@ -537,57 +537,100 @@ def PS.leInProgress (p : PS) : Bool := p.toNat ≤ 1
 /-- `State < COMPLETE` -/
 def PS.ltComplete (p : PS) : Bool := p.toNat < 2
 
-/-- dereference of `Status.Rollback.Commit` / `.Apply` -/
-def deref (p : Option PS) : Except Panic PS :=
-  match p with
-  | some x => .ok x
-  | none => .error .nilPtr
-
 /-- the guards of `applyValues` before `conn.Set`; `true` = the request is sent. -/
 def canSend (s : Sys) (c : Cfg) : Bool :=
   c.state ≠ .synchronizing && s.entity && !(c.aTerm < c.term) && c.master ≠ [] &&
   s.rels.contains c.master && s.conns.contains c.master
 
-/-- `commitChange`: `none` = `ok == false` (fall through to `applyChange`). -/
-def commitChange (s : Sys) (i : Nat) (t : Tx) (v : View) (verdict : Verdict) : Except Panic (Option Plan) := do
+/-- what a branch of the reconciler comes to: `fall` = `ok == false` (nothing done, the caller
+    falls through), a plan, or a panic (nil map assignment, nil `Rollback.Commit/Apply`). -/
+inductive Outcome
+  | fall
+  | plan (p : Plan)
+  | panic (p : Panic)
+deriving Repr
+
+/-- the `prevTransaction` test of `commitChange` (PENDING): `some true` = wait, `some false` = go
+    on, `none` = `prevTransaction.Status.Rollback.Commit` is nil and is dereferenced. -/
+def prevBusyCommit (s : Sys) (c : Cfg) : Option Bool :=
+  match getTx s c.cIndex with
+  | none => some false
+  | some p =>
+    if c.cTarget = c.cIndex && p.cc.leInProgress then some true
+    else if c.cTarget < c.cIndex then p.rc.map PS.leInProgress
+    else some false
+
+/-- the `prevTransaction` test of `applyChange` (PENDING). -/
+def prevBusyApply (s : Sys) (c : Cfg) : Option Bool :=
+  match getTx s c.aIndex with
+  | none => some false
+  | some p =>
+    if c.aTarget = c.aIndex && p.ca.leInProgress then some true
+    else if c.aTarget < c.aIndex then p.ra.map PS.leInProgress
+    else some false
+
+/-- the `prevTransaction` test of `commitRollback` (PENDING). -/
+def prevBusyRbCommit (s : Sys) (c : Cfg) (i : Nat) : Option Bool :=
+  match getTx s c.cIndex with
+  | none => some false
+  | some p =>
+    if c.cIndex = i && p.cc ≠ .complete then some true
+    else if c.cIndex > i then p.rc.map (· ≠ .complete)
+    else some false
+
+/-- the `prevTransaction` test of `applyRollback` where it aborts a pending change apply. -/
+def prevBusyRbAbort (s : Sys) (c : Cfg) : Option Bool :=
+  match getTx s c.aIndex with
+  | none => some false
+  | some p =>
+    if c.aTarget = c.aIndex && p.ca.ltComplete then some true
+    else if c.aTarget < c.aIndex then p.ra.map PS.ltComplete
+    else some false
+
+/-- the `prevTransaction` test of `applyRollback` before it moves the applied target. -/
+def prevBusyRbApply (s : Sys) (c : Cfg) (i : Nat) : Option Bool :=
+  match getTx s c.aIndex with
+  | none => some false
+  | some p =>
+    if c.aIndex = i && p.ca.ltComplete then some true
+    else if c.aIndex > i then p.ra.map PS.ltComplete
+    else some false
+
+/-- `commitChange` -/
+def commitChange (s : Sys) (i : Nat) (t : Tx) (v : View) (verdict : Verdict) : Outcome :=
   let c := v.c
   match t.cc with
   | .pending =>
-    if c.cChange ≠ i - 1 then return none
-    let mut pre : List Act := []
-    if c.cTarget ≠ i then
-      if c.cIndex ≠ c.cTarget then return none
-      match getTx s c.cIndex with
-      | none => pure ()
-      | some p =>
-        if c.cTarget = c.cIndex && p.cc.leInProgress then return none
-        if c.cTarget < c.cIndex then
-          if (← deref p.rc).leInProgress then return none
-      pre := [.cTarget i]
-    return some { acts := pre ++ [.tCommitBegin i c.cRevision (rollbackValues v.cVals t.values)] }
+    if c.cChange ≠ i - 1 then .fall
+    else if c.cTarget = i then
+      .plan { acts := [.tCommitBegin i c.cRevision (rollbackValues v.cVals t.values)] }
+    else if c.cIndex ≠ c.cTarget then .fall
+    else match prevBusyCommit s c with
+      | none => .panic .nilPtr
+      | some true => .fall
+      | some false =>
+        .plan { acts := [.cTarget i, .tCommitBegin i c.cRevision (rollbackValues v.cVals t.values)] }
   | .inProgress =>
     if c.cChange = i then
-      return some { acts := [.tCommitDone i c.cOrdinal], requeue := some (i + 1) }
-    if treeFails ((validationValues v.cVals t.values).map (·.2)) then
-      return some { err := true }
-    match verdict with
-    | .noPlugin | .invalid =>
-      return some { acts := [.tCommitFailed i, .cSkip i] }
-    | .valid =>
-      -- `configuration.Committed.Values[path] = value` on a nil map
-      if v.cVals.isEmpty && !t.values.isEmpty then throw .nilMap
-      return some { acts := [.cCommit i t.values, .tCommitDone i (c.cOrdinal + 1)], requeue := some (i + 1) }
+      .plan { acts := [.tCommitDone i c.cOrdinal], requeue := some (i + 1) }
+    else if treeFails ((validationValues v.cVals t.values).map (·.2)) then
+      .plan { err := true }
+    else match verdict with
+      | .noPlugin | .invalid => .plan { acts := [.tCommitFailed i, .cSkip i] }
+      | .valid =>
+        -- `configuration.Committed.Values[path] = value` on a nil map
+        if v.cVals.isEmpty && !t.values.isEmpty then .panic .nilMap
+        else .plan { acts := [.cCommit i t.values, .tCommitDone i (c.cOrdinal + 1)], requeue := some (i + 1) }
   | .failed =>
-    if c.cChange < i then return some { acts := [.cSkip i] }
-    return none
-  | _ => return none
+    if c.cChange < i then .plan { acts := [.cSkip i] } else .fall
+  | _ => .fall
 
 /-- the tail shared by the IN_PROGRESS branches of `applyChange` and `applyRollback` after
     `applyValues`: `okActs` on success, `failActs f` on a rejected request.  `sendable` = the
     SetRequest could be built (every path parses). -/
-def afterSend (s : Sys) (c : Cfg) (values : Values) (sendable : Bool) (ans : DevAns) (i : Nat)
+def afterSend (s : Sys) (c : Cfg) (values : Values) (ans : DevAns) (i : Nat)
     (okActs : List Act) (failActs : Fail → List Act) : Plan :=
-  if !canSend s c || !sendable then {} else
+  if !canSend s c || !sendable values then {} else
   match classify ans with
   | .ok => { send := some values, acts := okActs, requeue := some (i + 1) }
   | .retry => { send := some values, err := true }
@@ -595,123 +638,107 @@ def afterSend (s : Sys) (c : Cfg) (values : Values) (sendable : Bool) (ans : Dev
   | .fail f => { send := some values, acts := failActs f }
 
 /-- `applyChange` -/
-def applyChange (s : Sys) (i : Nat) (t : Tx) (v : View) (ans : DevAns) : Except Panic (Option Plan) := do
+def applyChange (s : Sys) (i : Nat) (t : Tx) (v : View) (ans : DevAns) : Outcome :=
   let c := v.c
-  if t.cc ≠ .complete then return none
+  if t.cc ≠ .complete then .fall else
   match t.ca with
   | .pending =>
-    if c.aOrdinal ≠ pred64 t.cord then return none
-    if c.aTarget = i then return some { acts := [.tApplyBegin i] }
-    match getTx s c.aIndex with
-    | none => pure ()
-    | some p =>
-      if c.aTarget = c.aIndex && p.ca.leInProgress then return none
-      if c.aTarget < c.aIndex then
-        if (← deref p.ra).leInProgress then return none
-    if c.aRevision < t.ridx then
-      return some { acts := [.tApplyAbort i, .aSkip i t.cord] }
-    return some { acts := [.aTarget i, .tApplyBegin i] }
+    if c.aOrdinal ≠ pred64 t.cord then .fall
+    else if c.aTarget = i then .plan { acts := [.tApplyBegin i] }
+    else match prevBusyApply s c with
+      | none => .panic .nilPtr
+      | some true => .fall
+      | some false =>
+        if c.aRevision < t.ridx then .plan { acts := [.tApplyAbort i, .aSkip i t.cord] }
+        else .plan { acts := [.aTarget i, .tApplyBegin i] }
   | .inProgress =>
     if c.aOrdinal = t.cord && c.aRevision = i then
-      return some { acts := [.tApplyDone i], requeue := some (i + 1) }
-    let values := addDeleteChildren i t.values v.cVals
-    return some (afterSend s c values (sendable values) ans i
-      [.aApply i t.cord values, .tApplyDone i]
-      (fun f => [.tApplyFailed i f, .aFailed i t.cord]))
+      .plan { acts := [.tApplyDone i], requeue := some (i + 1) }
+    else
+      let values := addDeleteChildren i t.values v.cVals
+      .plan (afterSend s c values ans i
+        [.aApply i t.cord values, .tApplyDone i]
+        (fun f => [.tApplyFailed i f, .aFailed i t.cord]))
   | .aborted | .failed =>
-    if c.aOrdinal < t.cord then return some { acts := [.aSkip i t.cord] }
-    return none
-  | _ => return none
+    if c.aOrdinal < t.cord then .plan { acts := [.aSkip i t.cord] } else .fall
+  | _ => .fall
 
 /-- `commitRollback` -/
-def commitRollback (s : Sys) (i : Nat) (t : Tx) (v : View) : Except Panic (Option Plan) := do
+def commitRollback (s : Sys) (i : Nat) (t : Tx) (v : View) : Outcome :=
   let c := v.c
   match t.rc with
-  | none => return none
   | some .pending =>
-    if c.cRevision ≠ i then return none
-    let mut pre : List Act := []
-    let mut tgt := c.cTarget
-    if c.cTarget = i then
-      if c.cIndex ≠ c.cTarget then return none
-      match getTx s c.cIndex with
-      | none => pure ()
-      | some p =>
-        if c.cIndex = i && p.cc ≠ .complete then return none
-        if c.cIndex > i then
-          if (← deref p.rc) ≠ .complete then return none
-      pre := [.cRbTarget i t.ridx]
-      tgt := t.ridx
-    if tgt = t.ridx then
-      return some { acts := pre ++ [.tRbCommitBegin i], failNil := true }
-    -- only reachable with `pre = []`
-    return none
+    if c.cRevision ≠ i then .fall
+    else if c.cTarget = i then
+      if c.cIndex ≠ c.cTarget then .fall
+      else match prevBusyRbCommit s c i with
+        | none => .panic .nilPtr
+        | some true => .fall
+        | some false => .plan { acts := [.cRbTarget i t.ridx, .tRbCommitBegin i], failNil := true }
+    else if c.cTarget = t.ridx then .plan { acts := [.tRbCommitBegin i], failNil := true }
+    else .fall
   | some .inProgress =>
     if c.cRevision = i then
-      if v.cVals.isEmpty && !t.rvals.isEmpty then throw .nilMap
-      return some { acts := [.cRbCommit i t.ridx t.rvals, .tRbCommitDone i (c.cOrdinal + 1)] }
-    return some { acts := [.tRbCommitDone i c.cOrdinal] }
-  | some _ => return none
+      if v.cVals.isEmpty && !t.rvals.isEmpty then .panic .nilMap
+      else .plan { acts := [.cRbCommit i t.ridx t.rvals, .tRbCommitDone i (c.cOrdinal + 1)] }
+    else .plan { acts := [.tRbCommitDone i c.cOrdinal] }
+  | _ => .fall
+
+/-- the part of `applyRollback` (rollback apply PENDING) that first finishes the change's own apply
+    phase: `fall` here means "go on to the rollback apply proper". -/
+def finishChangeApply (s : Sys) (i : Nat) (t : Tx) (c : Cfg) : Outcome × Bool :=
+  match t.ca with
+  | .pending =>
+    if c.aOrdinal = pred64 t.cord && c.aTarget ≠ i then
+      match prevBusyRbAbort s c with
+      | none => (.panic .nilPtr, true)
+      | some true => (.fall, true)
+      | some false => (.plan { acts := [.tApplyAbort i, .aSkip i t.cord] }, true)
+    else (.fall, true)
+  | .inProgress =>
+    if c.aOrdinal ≠ t.cord then (.plan { acts := [.tApplyFailed i .canceled, .aSkip i t.cord] }, true)
+    else (.fall, true)
+  | .aborted | .failed =>
+    if c.aOrdinal < t.cord then (.plan { acts := [.aSkip i t.cord] }, true) else (.fall, false)
+  | _ => (.fall, false)
 
 /-- `applyRollback` -/
-def applyRollback (s : Sys) (i : Nat) (t : Tx) (v : View) (ans : DevAns) : Except Panic (Option Plan) := do
+def applyRollback (s : Sys) (i : Nat) (t : Tx) (v : View) (ans : DevAns) : Outcome :=
   let c := v.c
   match t.rc, t.ra with
-  | none, _ | _, none => return none
-  | some rc, some ra =>
-    if rc ≠ .complete then return none
-    match ra with
-    | .pending =>
-      match t.ca with
-      | .pending =>
-        if c.aOrdinal = pred64 t.cord && c.aTarget ≠ i then
-          match getTx s c.aIndex with
-          | none => pure ()
-          | some p =>
-            if c.aTarget = c.aIndex && p.ca.ltComplete then return none
-            if c.aTarget < c.aIndex then
-              if (← deref p.ra).ltComplete then return none
-          return some { acts := [.tApplyAbort i, .aSkip i t.cord] }
-        return none
-      | .inProgress =>
-        if c.aOrdinal ≠ t.cord then
-          return some { acts := [.tApplyFailed i .canceled, .aSkip i t.cord] }
-        return none
-      | .aborted | .failed =>
-        if c.aOrdinal < t.cord then return some { acts := [.aSkip i t.cord] }
-      | _ => pure ()
-      if c.aOrdinal ≠ pred64 t.rord then return none
-      if c.aTarget = t.ridx then return some { acts := [.tRbApplyBegin i] }
-      match getTx s c.aIndex with
-      | none => pure ()
-      | some p =>
-        if c.aIndex = i && p.ca.ltComplete then return none
-        if c.aIndex > i then
-          if (← deref p.ra).ltComplete then return none
-      return some { acts := [.aRbTarget i t.ridx, .tRbApplyBegin i] }
-    | .inProgress =>
-      if c.aOrdinal = t.rord && c.aRevision = t.ridx then
-        return some { acts := [.tRbApplyDone i], requeue := some (i + 1) }
+  | some .complete, some .pending =>
+    let (o, stop) := finishChangeApply s i t c
+    if stop then o
+    else if c.aOrdinal ≠ pred64 t.rord then .fall
+    else if c.aTarget = t.ridx then .plan { acts := [.tRbApplyBegin i] }
+    else match prevBusyRbApply s c i with
+      | none => .panic .nilPtr
+      | some true => .fall
+      | some false => .plan { acts := [.aRbTarget i t.ridx, .tRbApplyBegin i] }
+  | some .complete, some .inProgress =>
+    if c.aOrdinal = t.rord && c.aRevision = t.ridx then
+      .plan { acts := [.tRbApplyDone i], requeue := some (i + 1) }
+    else
       let values := addDeleteChildren i t.rvals v.cVals
-      return some (afterSend s c values (sendable values) ans i
+      .plan (afterSend s c values ans i
         [.aRbApply i t.rord t.ridx values, .tRbApplyDone i]
         (fun f => [.aRbFailed i t.rord, .tRbApplyFailed i f]))
-    | _ => return none
+  | _, _ => .fall
 
-/-- `Reconcile` → `reconcileTransaction` -/
-def planTx (s : Sys) (i : Nat) (verdict : Verdict) (ans : DevAns) : Except Panic Plan := do
+/-- `first` unless it fell through -/
+def Outcome.orElse (a b : Outcome) : Outcome :=
+  match a with
+  | .fall => b
+  | x => x
+
+/-- `Reconcile` → `reconcileTransaction` → `reconcileChange` / `reconcileRollback` -/
+def planTx (s : Sys) (i : Nat) (verdict : Verdict) (ans : DevAns) : Outcome :=
   match getTx s i with
-  | none => return {}
+  | none => .fall
   | some t =>
     let v := view s
     match t.phase with
-    | .change =>
-      if let some p ← commitChange s i t v verdict then return p
-      if let some p ← applyChange s i t v ans then return p
-      return {}
-    | .rollback =>
-      if let some p ← commitRollback s i t v then return p
-      if let some p ← applyRollback s i t v ans then return p
-      return {}
+    | .change => (commitChange s i t v verdict).orElse (applyChange s i t v ans)
+    | .rollback => (commitRollback s i t v).orElse (applyRollback s i t v ans)
 
 end OnosVerif.V3
